@@ -22,7 +22,10 @@ func init() {
 			"R19a no partial primitive: every epoch-extracting method call on time.Time is inventoried; (time.Time).UnixNano (undefined outside years 1678-2262) and instant differences ((time.Time).Sub, time.Since, time.Until: time.Duration saturates at +-292 years) are rejected unless their operands derive from time.Now() only; " +
 			"R19b no overflowing arithmetic between instant and epoch number: in every function that converts between time.Time and an epoch number, each integer *, +, -, << is checked by interval analysis over SSA (strconv.Parse* results span their full type, (time.Time).Unix() spans the property's domain years 0-9999 +- 1 day, Nanosecond() is [0,1e9), %, / and comparison guards against constants narrow) and must not be able to leave its type; a time.Unix(x/k, ns) call must derive ns from x%k of the same x and k (no truncation of the epoch number); " +
 			"R19c error-out / empty-in: every call that yields (value, error) has its error tested, no use of the value is reachable before the test or on the non-nil edge, every return reachable from the non-nil edge carries a non-nil error, every return with a non-nil error carries only zero values (never a formatted time), and every exported function returns (\"\", nil) on the `input == \"\"` edge, which dominates the parse of that input; " +
-			"R19d unit dispatch is closed: the exported functions (or the lookup helper they hand the unit to) are run abstractly with the unit parameter fixed to each constant it is compared with / each constant key of the table it is looked up in (comma-ok), and to none of them: the constants are exactly SECOND and MILLISECOND, each is accepted on some path, both directions use the same set, and with an unknown unit every return after the first comparison is (\"\", non-nil error).",
+			"R19d unit dispatch is closed: the exported functions (or the lookup helper they hand the unit to) are run abstractly with the unit parameter fixed to each constant it is compared with / each constant key of the table it is looked up in (comma-ok), and to none of them: the constants are exactly SECOND and MILLISECOND, each is accepted on some path, both directions use the same set, and with an unknown unit every return after the first comparison is (\"\", non-nil error). " +
+			"R19e output provenance: a text returned without an error is data-dependent on an instant (time.Time value), or is the constant \"\" on the true edge of an `input == \"\"` test of an own string parameter; " +
+			"R19f no instant-shifting primitive ((time.Time).Add/AddDate/Truncate/Round) on an instant that does not derive from time.Now(); " +
+			"R19g the date-time call tree reads no package-level variable that a non-initialiser function writes (plain store or sync/atomic Store/Swap/Add/CompareAndSwap): the result is a function of the arguments and the keyed caches only.",
 		NotDecided: "whether the instant is preserved: the layouts of the smart parser, overwrite-vs-convert zone logic, DST and leap handling are delegated to time and go-corelib/times; the scale factors themselves (1000, 1e6) are not related to the unit names; epoch strings outside the int64 seconds that time.Unix can represent.",
 		Trusted: append([]string{"time.Parse / times.SmartParse only produce years 0-9999 (the property's domain), so (time.Time).Unix() of a parsed value lies in [-62167305600, 253402387199]",
 			"(time.Time).Unix, UnixMilli, UnixMicro, Nanosecond and time.Unix are total on that domain; (time.Time).UnixNano is not"}, commonTrusted...),
@@ -136,6 +139,7 @@ func runC19(c *core.Ctx) {
 	c19Arithmetic(c, fns)
 	c19ErrorEdges(c, fns)
 	c19UnitDispatch(c, fns)
+	c19Extra(c, fns)
 }
 
 // ---------------------------------------------------------------- R19a
